@@ -187,6 +187,8 @@ def oracle(case, res, serial_res=None):
     il = interleaved(wire)
     if il:
         bad.append(f"wire: calls of operation(s) {il} are not contiguous: {[(e[0], e[1], e[2]) for e in wire]}")
+    for o in getattr(res, "orphans", []):
+        bad.append(f"operation {tuple(o['op'])} has ended for its caller ({o['outcome']}) but is not over: {'; '.join(o['left'])}")
     if res.max_holders > 1:
         bad.append("two callers were inside the lock context at once")
     if res.deadlock:
@@ -614,7 +616,12 @@ def timed_scenarios(tier, rng):
     # returns by itself; when the caller has its ScrapliTimeout the operation must be over (lock free, no worker, no further calls)
     base.append({"late": True, "no_terminate": True, "tname": "SimTransport", "hung": ["si", "late"], "queued": [], "a_delay": 1.5})
     base.append({"late": True, "no_terminate": True, "tname": "SystemTransport", "hung": ["int", "late"], "queued": [], "a_delay": 1.5})
+    # the same on the asyncio stack (timeout_wrapper's asyncio branch), NO_TERMINATE_ON_TIMEOUT on and off: at the moment the caller
+    # gets ScrapliTimeout the lock must be free and no task created by the operation pending; the next operation gets its own output
+    base.append({"late": True, "async_late": True, "no_terminate": True, "tname": "AsyncSimTransport", "hung": ["si", "late"], "queued": [], "a_delay": 1.5})
+    base.append({"late": True, "async_late": True, "no_terminate": False, "tname": "AsyncSimTransport", "hung": ["int", "late"], "queued": [], "a_delay": 1.5})
     if tier == "thorough":
+        base.append({"late": True, "async_late": True, "no_terminate": True, "tname": "AsyncSimTransport", "hung": ["sir", "late"], "queued": [], "a_delay": 1.5})
         base.append({"late": True, "no_terminate": True, "tname": "TelnetTransport", "hung": ["sir", "late"], "queued": [], "a_delay": 1.5})
         base.append({"late": True, "no_terminate": False, "tname": "SimTransport", "hung": ["si", "late"], "queued": [], "a_delay": 1.5})
         base.append({"waiter": True, "async_waiter": True, "tname": "AsyncSimTransport", "hung": ["si", "wait"], "queued": [["gp"], ["sir"]],
@@ -819,11 +826,11 @@ def timed_family(ck, tier, closes_before_join, pool_joins=True):
             ck.proof_broken("model driver Drv/C19.lean (T)", repr(e))
     for i, (sc, r) in enumerate(zip(scs, results)):
         ck.case(("timed", json.dumps(sc, sort_keys=True)), nontrivial=True, sample={"timed": sc, "hung": r["hung"]},
-                tags=("timed", "asyncio" if sc.get("async_waiter") else "threads", "waiter-times-out" if sc.get("waiter") else "late-answer-no-terminate" if sc.get("late") else "holder-times-out", f"transport={sc['tname']}", f"hung={sc['hung'][0]}/{sc['hung'][1]}", f"queued={len(sc['queued'])}"))
+                tags=("timed", "asyncio" if (sc.get("async_waiter") or sc.get("async_late")) else "threads", "waiter-times-out" if sc.get("waiter") else "late-answer-no-terminate" if sc.get("late") else "holder-times-out", f"transport={sc['tname']}", f"hung={sc['hung'][0]}/{sc['hung'][1]}", f"queued={len(sc['queued'])}"))
         for what in timed_oracle(sc, r)[:1]:
             ck.violation({"timed": sc, "observed": r}, what, matcher)
         if sc.get("late"):
-            if mout is not None and not r["hung"]["alive"]:
+            if mout is not None and not r["hung"]["alive"] and not sc.get("async_late"):     # PoolTimeout is the thread mechanism
                 pc, lk, _cl = mout[i].split(" ")
                 real = bool((r.get("at_exception") or {}).get("lock_locked"))
                 model = pc == "raised" and lk == "1"
@@ -873,7 +880,9 @@ def run(tier, seed):
                "connection serves two fresh callers; compared with the Lean PoolTimeout protocol model fed with the generated close/join order; "
                "also: a caller whose timeout expires while it WAITS for the lock behind a slow holder; and Settings.NO_TERMINATE_ON_TIMEOUT on with a "
                "device that answers 1.5 s after the return (timeout_ops 0.5): at the moment the caller gets ScrapliTimeout the lock must be free, no "
-               "worker of that call alive, no later transport call by it, and the next operation gets its own output. asyncio schedules additionally contain "
+               "worker thread / task of that call alive, no later transport call by it, and the next operation gets its own output (threads and asyncio). "
+               "In every scheduler run, the moment an operation returns/raises to its caller it must not hold the lock nor have anybody suspended at a "
+               "yield point on its behalf. asyncio schedules additionally contain "
                "CANCEL events (task.cancel() ONLY while the task is parked at the lock; a real timeout there additionally closes the shared transport: timed scenario async_waiter): every list over "
                "{run 0,1,2, cancel 1} of 5 (7) entries for 3 tasks, over {run 0,1, cancel 0,1} of 5 (7) for 2 tasks, PRNG for 2-4 tasks; "
                "a cancelled operation must make no transport call and leave the lock alone.")
